@@ -82,7 +82,9 @@ EncodeWithHrp(h, bytes) ==
 EncodeOk(bytes) == Len(bytes) >= 1 /\ bytes[1] \in EntityBytes
 EncodeAddr(suffix, bytes) == EncodeWithHrp(HrpFor(bytes[1], suffix), bytes)
 
-LastIndexOf(s, c) == IF \E i \in 1..Len(s) : s[i] = c THEN CHOOSE i \in 1..Len(s) : s[i] = c /\ \A j \in (i + 1)..Len(s) : s[j] # c ELSE 0
+RECURSIVE LastFrom(_, _, _)
+LastFrom(s, c, i) == IF i = 0 THEN 0 ELSE IF s[i] = c THEN i ELSE LastFrom(s, c, i - 1)
+LastIndexOf(s, c) == LastFrom(s, c, Len(s))          \* 0 if c does not occur
 Fail == [ok |-> FALSE, bytes |-> <<>>]
 \* bech32::decode + Bech32m variant + from_base32, HRP not yet compared: [ok, hrp (lower case), bytes]
 DecodeAny(text) ==
